@@ -9,14 +9,19 @@
    induction over the axis list / the construct lists with an invariant of the writer state
    (RtWriter, RtSteps, RtAxis, RtPhases, RtSummary) and a reading of the resulting dataset (RtReader).
 
-   Still NOT proved: that every netCDF name that had been set is the name read back
-   (C01_names_kept: needs "a set name is unused when it is requested", i.e. set names pairwise distinct
-   and different from every default name; C01_name_allocator_keeps_free_name is the step lemma).  For the
-   netCDF dimension name of bounds the full statement is false of the faithful model:
-   C01_bounds_dimension_name_refuted (known finding bounds-dimension-name-shared-by-size); exact guard:
-   no bounds construct written earlier has the same number of vertices. *)
+   Names kept (second deepening pass, RtNames.v): the invariant "a set name is unused when it is requested" is
+   KInv R w - every name in use contains an underscore or is one of the underscore-free bases R requested so far
+   (the allocator only ever returns  base  or  base_k).  It is proved to be preserved by every primitive of the
+   writer state and used for (a) request histories of any length (C01_names_kept_in_any_run, exact guard:
+   C01_names_kept_twice_refuted) and (b) the cell-measure / field-ancillary phases of write_skel
+   (C01_names_kept_measures_ancillaries: every set name is the name of the variable written and of the attribute
+   entry at the construct's position).  Still NOT proved: KInv threaded through the axis loop / bounds /
+   auxiliary-coordinate loop of write_skel (the step lemmas alloc_K, add_dim_K, ... are there; missing is the
+   bookkeeping of role dimensions), hence the whole-skeleton statement C01_names_kept; the oracle checks the names
+   of every case.  The dimension name of bounds is kept since C01-fix3-3 (superseded code: Refuted.v,
+   C01_bounds_dimension_name_old_refuted). *)
 From CfdmV Require Import Common.Base C01.Model C01.Lemmas C01.RtStrings C01.RtWriter C01.RtSteps C01.RtAxis
-  C01.RtPhases C01.RtSummary C01.RtReader C01.Run C01.RtGuard.
+  C01.RtPhases C01.RtSummary C01.RtReader C01.Run C01.RtGuard C01.RtNames.
 
 Open Scope string_scope.
 Open Scope list_scope.
@@ -114,6 +119,53 @@ Print Assumptions C01_every_construct_read_back.
 Theorem C01_wellformed_example : wf ex_skel /\ dim_unique ex_skel.
 Proof. exact ex_skel_wf. Qed.
 Print Assumptions C01_wellformed_example.
+
+(* ------------------------------------------------------------------ names kept *)
+
+(* "A set name is unused when it is requested", for ANY history of name requests from ANY writer state whose names
+   in use contain an underscore or belong to R: the i-th request is answered with its base b itself when b has no
+   underscore, is not in R and was not requested earlier in the history. *)
+Theorem C01_names_kept_in_any_run :
+  forall bs R w, KInv R w -> Forall nice bs ->
+  forall i b, nth_error bs i = Some b -> noundb b = true -> ~ In b R -> ~ In b (firstn i bs) ->
+  nth_error (fst (alloc_all bs w)) i = Some b.
+Proof. exact names_kept_in_any_run. Qed.
+Print Assumptions C01_names_kept_in_any_run.
+
+(* the guard is exact: a base requested a second time comes back with a suffix *)
+Theorem C01_names_kept_twice_refuted :
+  exists bs i b, nth_error bs i = Some b /\ noundb b = true /\ nth_error (fst (alloc_all bs w0)) i <> Some b.
+Proof. exact names_kept_twice_refuted. Qed.
+Print Assumptions C01_names_kept_twice_refuted.
+
+(* one step: the invariant is re-established by an allocation, and a new underscore-free base is returned as it is *)
+Theorem C01_names_invariant_step :
+  forall R base w n w', KInv R w -> nice base -> alloc base w = (n, w') ->
+  KInv (base :: R) w' /\ (noundb base = true -> ~ In base R -> n = base).
+Proof.
+  intros R base w n w' HK Hb Ha. split.
+  - eapply alloc_K; [exact HK|exact Hb|exact Ha|intros x Hx; right; exact Hx|right; left; reflexivity].
+  - intros Hu Hn. eapply alloc_keep; eassumption.
+Qed.
+Print Assumptions C01_names_invariant_step.
+
+(* The cell-measure and the field-ancillary loops of write_skel (fold_left (write_plain d) cs), for a list of
+   constructs of any length, from any state satisfying the invariant: when the set netCDF variable names are
+   pairwise different, underscore-free and not among the bases R requested before (which contain the default name d
+   and the standard names), every construct that has a set name n is written as a variable named n, and the entry of
+   the cell_measures / ancillary_variables attribute at its position is built from n. *)
+Theorem C01_names_kept_measures_ancillaries :
+  forall d cs R w l, KInv R w -> nice d -> In d R ->
+  (forall c, In c cs -> nice_opt (c_std c) /\ nice_opt (c_ncvar c) /\ incl (oset (c_std c)) R) ->
+  NoDup (flat_map (fun c => oset (c_ncvar c)) cs) ->
+  (forall n, In n (flat_map (fun c => oset (c_ncvar c)) cs) -> noundb n = true /\ ~ In n R) ->
+  let r := fold_left (write_plain d) cs (w, l) in
+  KInv (rev (flat_map (fun c => oset (c_ncvar c)) cs) ++ R) (fst r) /\
+  exists ents, snd r = l ++ ents /\ length ents = length cs /\
+    forall i c n, nth_error cs i = Some c -> c_ncvar c = Some n ->
+      nth_error ents i = Some (named_entry c n) /\ In n (map v_name (w_vars (fst r))).
+Proof. exact write_plain_names. Qed.
+Print Assumptions C01_names_kept_measures_ancillaries.
 
 (* The same under the executable guard C01.Run.check_wf, which the harness evaluates on every in-fragment case
    the implementation ran on (so the cases compared with cfdm lie inside the domain of the theorems):
